@@ -31,6 +31,16 @@ from props.c14 import nest_complex
 TITLE = "block-level vs combinator-level constraint scope"
 LEVEL = "proof"
 
+# Finding of this check on the pinned tree, repaired in /repo commit 2f184ec; the window search below
+# (sig "ranges:overrun") and the end-to-end search (sig "e2e:partial-last-repetition") report it again
+# if the clamp `min(end, num_trials)` in map_block_trial_ranges is removed.
+FIXED_OVERRUN = {
+    "sig": "ranges:overrun", "status": "fixed", "commit": "2f184ec",
+    "what": "map_block_trial_ranges let the window of a partial last repetition run past the last trial "
+            "(Repeat(CrossBlock([f],[f],[AtMostKInARow(1,f)]),[MinimumTrials(3)]): ranges (0,2),(2,4) for 3 trials), "
+            "so block-level constraints read auxiliary variables",
+    "program": "gen_design.corpus() 'repeat-partial-window'"}
+
 KINDS = ("AtMostKInARow", "AtLeastKInARow", "ExactlyKInARow", "ExactlyK", "Pin")
 
 
@@ -67,19 +77,17 @@ def repeat_program(nlev, ngl, k, where, mintrials, level=None, kind="AtMostKInAR
 
 def e2e_programs(quick):
     out = []
-    for nlev, ngl in ((2, 0), (3, 0), (2, 2)):
+    fams = [(2, 0, 2, (0, 1)), (2, 0, 3, (0, 1)), (3, 0, 2, (0, 1, 2))]
+    if not quick:
+        fams += [(3, 0, 3, (0, 1)), (2, 2, 2, (0,)), (2, 0, 4, (0, 1))]
+    for nlev, ngl, reps, extras in fams:
         S = nlev * (ngl or 1)
-        for reps in ((2, 3) if S <= 3 else (2,)):
-            for extra in (0, 1):            # 1: the last repetition is partial
-                T = S * reps + extra
-                if nlev == 3 and reps == 3:
-                    continue
-                for where in ("block", "combinator", "none"):
-                    for k in (1, 2):
-                        for level in (None, "a"):
-                            if quick and (k == 2 and level is None and ngl):
-                                continue
-                            out.append(repeat_program(nlev, ngl, k, where, T, level))
+        for extra in extras:                # > 0: the last repetition is partial
+            T = S * reps + extra
+            for where in ("block", "combinator", "none"):
+                for k in (1, 2):
+                    for level in (None, "a"):
+                        out.append(repeat_program(nlev, ngl, k, where, T, level))
     return out
 
 
@@ -142,9 +150,12 @@ def doc_constraint_windows(program):
         for c in docsem.expand_constraint(program, c0):
             if c["kind"] not in KINDS:
                 continue
-            wins, _scale = docsem.scope_windows(scope, ds.T)
+            wins, scale = docsem.scope_windows(scope, ds.T)
             fid, ln = c["level"]
-            out.append((c["kind"], fm[fid]["name"], ln, c.get("k", c.get("index")), [list(x) for x in wins]))
+            param = c.get("k", c.get("index"))
+            if c["kind"] == "ExactlyK":
+                param *= scale      # an outer block's count is per outer trial; each lasts `scale` trials of the nest
+            out.append((c["kind"], fm[fid]["name"], ln, param, [list(x) for x in wins]))
     return ds.T, sorted(out)
 
 
@@ -382,6 +393,7 @@ def run(ctx, res):
         if b is not None:
             found.append((b[0], b[1], b[2], p, True))
     res.extra["input_distribution"] = {"shapes": shapes, "stats": stats}
+    res.extra["fixed_findings"] = [FIXED_OVERRUN]
     seen = set()
     for sig, what, detail, p, concrete in found:
         if sig in seen:
